@@ -21,7 +21,9 @@ ASSUMPTIONS = ['frame sizes are not computed (no numeric stack bound)',
 HEAP = {'alloc::boxed::Box', 'alloc::rc::Rc', 'alloc::sync::Arc', 'alloc::vec::Vec',
         'alloc::collections::vec_deque::VecDeque', 'alloc::collections::binary_heap::BinaryHeap',
         'alloc::collections::btree::map::BTreeMap', 'alloc::collections::btree::set::BTreeSet',
-        'alloc::collections::linked_list::LinkedList'}
+        'alloc::collections::linked_list::LinkedList',
+        # heap containers of the optional features; their elements are not generic children (bits of a store integer)
+        'bitvec::vec::BitVec', 'bitvec::boxed::BitBox'}
 KERNEL = {'decode_vec_with_len'}
 
 
@@ -137,6 +139,11 @@ def check_all(out, facts, cfg, floors=True):
                 out.ob('R11.2', key + '/no-own-descend', not own_desc,
                        'decoder of a type that does not own its children on the heap calls descend_ref itself: '
                        'siblings/inline aggregates would consume depth', f['loc'])
+                kern = [e for e in events(ta) if e[0] == 'KERNEL']
+                out.ob('R11.2', key + '/no-kernel', not kern,
+                       'decoder of a type that does not own its children on the heap reads them through the item kernel '
+                       '(%s), which spends one level for every element type without a bulk path: an inline aggregate would cost a level'
+                       % ', '.join(sorted({e[1] for e in kern})), f['loc'])
         if not floors:
             return
         out.floor('R11.1', 'decoding functions analysed [%s]' % cfg, n_fn, 60)
